@@ -183,6 +183,48 @@ def worker(prog, name):
                 unmodelled=sorted(eng.unmodelled), widened=len(eng.widened))
 
 
+HANDLER_KIND = {"invoke_safe_str_constraint_handler": "str", "invoke_safe_mem_constraint_handler": "mem", "handle_error": "str", "handle_werror": "str",
+                "handle_mem_error": "mem", "handle_str_bos_overflow": "str", "handle_str_bos_chk_warn": "str", "handle_str_src_bos_chk_warn": "str",
+                "handle_mem_bos_chk_warn": "mem"}
+
+
+def family_rule(ck, prog, names, report=None):
+    """sibling agreement: all reports of one function go to the handler of one family (string or memory).  The registrations are independent
+    (C13), so a violation sent to the other family's handler is invisible to a program that registered the one the rest of the function uses."""
+    report = report or ck.report
+    out = dict(functions=0, mixed=0)
+    for n in names:
+        fn = prog.funcs[n]
+        kinds = {}
+        for c in fn.calls():
+            k = HANDLER_KIND.get(c.get("callee") or "")
+            if k:
+                kinds.setdefault(k, []).append(c)
+        if not kinds:
+            continue
+        out["functions"] += 1
+        if len(kinds) > 1:
+            out["mixed"] += 1
+            minor = min(kinds, key=lambda k: len(kinds[k]))
+            major = [k for k in kinds if k != minor][0]
+            for c in kinds[minor]:
+                msg = exit_message_of(fn, c)
+                report("C05:other-family-handler:%s:%s" % (api.base_name(n), msg or c.get("callee")), "H-one-handler-family-per-function", fn.loc(c),
+                       "%s: this violation is reported through the %s handler (%s) while the function's other %d reports go to the %s handler"
+                       % (api.base_name(n), {"str": "string", "mem": "memory"}[minor], c.get("callee"), len(kinds[major]), {"str": "string", "mem": "memory"}[major]))
+    return out
+
+
+def exit_message_of(fn, call):
+    from ..ir import global_roots
+    for a in call.get("args", ()):
+        for g_ in global_roots(a):
+            g = fn.mod["gmap"].get(g_)
+            if g and "str" in g:
+                return g["str"].rstrip("\0").replace(" ", "_")[:50]
+    return None
+
+
 def run(ck):
     mods, info = frontend.load_modules()
     prog = Program(mods)
@@ -214,8 +256,9 @@ def run(ck):
     for n in ("_strcpy_s_chk", "_memcpy_s_chk", "_sprintf_s_chk", "sscanf_s"):
         if n in per:
             ck.sample(dict(function=n, **per[n]))
+    fam = family_rule(ck, prog, names)
     fx = selftest(ck)
-    cov = dict(explanation="Path-sensitive exploration (symbolic store + linear path facts, loop phis opaque, library helpers and nested exported callees inlined to depth 3, "
+    cov = dict(handler_family=fam, explanation="Path-sensitive exploration (symbolic store + linear path facts, loop phis opaque, library helpers and nested exported callees inlined to depth 3, "
                "larger callees by assume-guarantee on their own convention) of all %d exported functions with a failure indication: %d distinct (return, handler-state) "
                "path outcomes from %d explored path states. Rules at each return: handler count <= 1; error indication <=> exactly one invocation; code passed = code returned "
                "(errno_t / negated int / EOF / NULL / false / 0 conventions per function). Ordering clause: in %d functions with a recognised RSIZE limit check "
@@ -234,6 +277,11 @@ def selftest(ck):
     out = {}
     want = {"fx_touch_first_s": ["touched-before-size-check"], "fx_good_s": [], "fx_twice_s": ["reported-twice"], "fx_silent_s": ["error-without-handler"], "fx_wrongcode_s": ["code-mismatch"], "fx_errp_forgotten_s": ["code-mismatch"],
             "fx_nested_quiet_s": [], "fx_nested_noisy_s": ["handler-on-success", "reported-twice"]}
+    got = []
+    fr = family_rule(ck, prog, ["fx_family_mixed_s", "fx_good_s"], report=lambda key, *a, **k: got.append(key))
+    out["family"] = got
+    if len(got) != 1 or "fx_family_mixed_s" not in got[0]:
+        ck.fail_broken("fixture c05.c: handler-family rule reported %s" % got)
     for n, w in want.items():
         r = worker(prog, n)
         got = sorted({f["rule"] for f in r.get("findings", [])}) if "findings" in r else ["budget"]
